@@ -147,6 +147,36 @@ class GaussUniform(VFModel):
         return means, variances
 
 
+class GaussHole(GaussUniform):
+    """GaussUniform whose prior has no support in part of its bounding box
+    (log_prior = -inf for the first parameter below `cut`)."""
+
+    def __init__(self, dims=2, lo=-5.0, hi=5.0, cut=0.0):
+        super().__init__(dims=dims, lo=lo, hi=hi)
+        self.cut = float(cut)
+        self._log_vol = float(
+            math.log(self._hi[0] - self.cut)
+            + sum(math.log(w) for w in self._w[1:]))
+
+    def log_prior(self, x):
+        ok = self.in_bounds(x) & (x[self.names[0]] >= self.cut)
+        return np.where(ok, -self._log_vol, -np.inf)
+
+    @property
+    def true_log_evidence(self):
+        z = math.log(ndtr(self._hi[0]) - ndtr(self.cut)) - math.log(
+            self._hi[0] - self.cut)
+        for a, b, w in zip(self._lo[1:], self._hi[1:], self._w[1:]):
+            z += math.log(ndtr(b) - ndtr(a)) - math.log(w)
+        return z
+
+    def posterior_moments(self):
+        means, variances = super().posterior_moments()
+        d = stats.truncnorm(self.cut, self._hi[0])
+        means[0], variances[0] = float(d.mean()), float(d.var())
+        return means, variances
+
+
 class GaussGaussPrior(VFModel):
     """Gaussian likelihood N(mu_l, s_l), truncated-normal prior N(0, s_p) on
     [-b, b] per dimension: non-uniform prior, analytic evidence."""
@@ -361,6 +391,7 @@ class GWNamed(GaussUniform):
 REGISTRY = {
     "gauss_uniform": GaussUniform,
     "gauss_gauss": GaussGaussPrior,
+    "gauss_hole": GaussHole,
     "quantised": Quantised,
     "rosenbrock": Rosenbrock,
     "periodic": PeriodicAngle,
